@@ -477,7 +477,9 @@ def judge(case, outcome, after, fetches, injected=False):
         if why:
             bad.append(('deleted-root-not-eligible:%s' % why,
                         'root row %d %r was deleted under %r (%s)' % (i, r, conf, why)))
-    for x in elig:
+    # (an evaluation aborted by an injected failure has only done some of its batches: the order clause is about
+    #  completed evaluations, the next evaluation removes the older ones)
+    for x in ([] if injected else elig):
         if x['id'] in deleted and x['age'] is not None:
             for y in elig:
                 if y['id'] not in deleted and y['age'] is not None and x['age'] < y['age']:
@@ -801,7 +803,8 @@ def run(ctx):
         if outs.get('raise:TypeError'):
             ctx.notes.append('observation: when a delete fails (row already removed by another engine), the handler in _delete calls '
                              'traceback.format_exc(e), which itself raises TypeError on Python 3; the evaluation aborts with that TypeError '
-                             '(batch transaction rolled back, trees complete, nothing ineligible deleted) instead of logging and going on; '
+                             '(batch transaction rolled back, trees complete, nothing ineligible deleted; earlier batches stay deleted, so older '
+                             'eligible executions can remain until the next evaluation) instead of logging and going on; '
                              'seen %d times. Had the handler swallowed the error, the `while True` loop would refetch the same row forever.'
                              % outs['raise:TypeError'])
         ev = ctx.cov['suites'].get('evaluate', {})
